@@ -23,7 +23,7 @@ const c07Setup = `
 CREATE TABLE t (id INTEGER PRIMARY KEY, v, pad);
 CREATE INDEX t_v ON t (v);
 CREATE TABLE w (k TEXT PRIMARY KEY, v) WITHOUT ROWID;
-WITH RECURSIVE n(i) AS (SELECT 1 UNION ALL SELECT i+1 FROM n WHERE i<60)
+WITH RECURSIVE n(i) AS (SELECT 1 UNION ALL SELECT i+1 FROM n WHERE i<700)
 INSERT INTO t SELECT i, 'v'||(i%9), substr('ppppppppppppppppppppppppppppppppppppppppppppppppppppppppppppppp', 1, i%50) FROM n;
 INSERT INTO w VALUES ('a', 1), ('b', 2), ('c', 3);
 CREATE TABLE x01 (a, b); CREATE TABLE x02 (a, b); CREATE TABLE x03 (a, b); CREATE TABLE x04 (a, b); CREATE TABLE x05 (a, b); CREATE TABLE x06 (a, b);
@@ -133,7 +133,7 @@ func c07Scenarios(thorough bool) []c07Scenario {
 }
 
 func runC07(r *ev.Run) {
-	r.Rule = "writer scripts of a real SQLite connection in another process (small commit, two transactions back to back with synchronous FULL and OFF, rollback, spilling bulk insert with cache_size=1, a schema change spilled with a multi-page sqlite_master and then rolled back, commit blocked by a third reader = PENDING, locking_mode=EXCLUSIVE), journal modes DELETE (+TRUNCATE, PERSIST thorough), parked after EVERY statement; in every parked state every read operation (all low level and high level calls, the driver) runs on a fresh handle and on a long-lived handle; in addition one long-lived handle per SUBSET of the steps reads (Select on both tables, IndexedSelect) only at the steps of its subset, so every read schedule of a long-lived handle is covered; and one handle OPENED in every parked state, read at every later step; the writer's lock level is read from /proc/locks; oracle: PENDING or EXCLUSIVE => error and zero rows; RESERVED/SHARED/UNLOCKED => success and exactly the last committed content (dumped by a separate SQLite reader). second family (mid-read): a Select / IndexedSelect parked in its row callback, on a fresh handle and on a handle opened before another process grew the file threefold; the writer (one page cache: it wants to spill) begins and updates every row at row j and tries COMMIT or ROLLBACK at row k, for every j <= k (and, for a third of them, with a select-like call made from the first row's callback on the same handle): no row of the unfinished transaction is delivered, the result equals the state committed when the read started, the writer never holds EXCLUSIVE and never commits while the read is in progress, and can finish after it returned. non-trivial = states in which the writer holds RESERVED or more"
+	r.Rule = "writer scripts of a real SQLite connection in another process (small commit, two transactions back to back with synchronous FULL and OFF, rollback, spilling bulk insert with cache_size=1, a schema change spilled with a multi-page sqlite_master and then rolled back, commit blocked by a third reader = PENDING, locking_mode=EXCLUSIVE), journal modes DELETE (+TRUNCATE, PERSIST thorough), parked after EVERY statement; the table scanned by the long-lived handles spans more pages than the handle's page cache holds (so its older cache generation is in use); in every parked state every read operation (all low level and high level calls, the driver) runs on a fresh handle and on a long-lived handle; in addition one long-lived handle per SUBSET of the steps reads (Select on both tables, IndexedSelect) only at the steps of its subset, so every read schedule of a long-lived handle is covered; and one handle OPENED in every parked state, read at every later step; the writer's lock level is read from /proc/locks; oracle: PENDING or EXCLUSIVE => error and zero rows; RESERVED/SHARED/UNLOCKED => success and exactly the last committed content (dumped by a separate SQLite reader). second family (mid-read): a Select / IndexedSelect parked in its row callback, on a fresh handle and on a handle opened before another process grew the file threefold; the writer (one page cache: it wants to spill) begins and updates every row at row j and tries COMMIT or ROLLBACK at row k, for every j <= k (and, for a third of them, with a select-like call made from the first row's callback on the same handle): no row of the unfinished transaction is delivered, the result equals the state committed when the read started, the writer never holds EXCLUSIVE and never commits while the read is in progress, and can finish after it returned. non-trivial = states in which the writer holds RESERVED or more"
 	defer c07MidRead(r)
 	dir := ev.TmpDir("c07")
 	defer os.RemoveAll(dir)
